@@ -115,6 +115,11 @@ RULE = ("cases = corpus (defect witnesses) + N generated problems (50% consisten
         "derivation tree within max_depth AND goal true in a store of the explicit forward search => provable (failures = known "
         "finding F-C09e). The search model's prediction is compared as well: the driver emits the SET of admissible "
         "observations over all orders of the top-level candidate list (HashSet order) and the check is membership. "
+        "CALLER-OWNED UNDO FRAME family (cfg `^r` / `^k`, C10 part B's clause, generated last so that the cases above are unchanged): constructive "
+        "chains under every strategy x max_solutions 1, 3 x {rollback, commit} and N/2 single-query cases sampled from all families re-run inside "
+        "a frame the caller began on the facts and rolls back / commits afterwards (deep searches over >= 3 rules re-run at depth <= 4); the model "
+        "prediction is the plain one with undo depth 1 and the facts after the close (initial facts / facts handed back), the oracle checks the "
+        "caller-frame clauses first (Driver/C09.lean oracleWrap) and then the plain clauses. "
         "Non-trivial = provable with derived facts, or not provable although some rule can fire on the initial facts.")
 TRUSTED = [
     "Lean 4.33 kernel; axioms of every property theorem within {propext, Classical.choice, Quot.sound} (audited each run)",
